@@ -245,7 +245,8 @@ PLANS = {
                      G("roundtrip", 100, 2000, "TraceCursor", "TraceCursor.cfg", extra=["--wsched", "rand5"])]),
     "C02": dict(level="model_checking", assumptions=TRUST,
                 mc=[MC("MCBlock", "MCBlock.cfg", workers=8), MC("MCBytes", "MCBytes.cfg", workers=8)],
-                gen=[G("seeks", 96, 2000, "TraceCursor", "TraceCursor.cfg")]),
+                gen=[G("seeks", 96, 2000, "TraceCursor", "TraceCursor.cfg"),
+                     G("big", 6, 80, "TraceCursor", "TraceCursor.cfg")]),
     "C04": dict(level="model_checking", assumptions=TRUST,
                 mc=[MC("MCIter", "MCIter_quick.cfg", workers=4), MC("MCIter", "MCIter.cfg", workers=4, quick=False)],
                 gen=[G("ranges", 112, 3000, "TraceIter", "TraceIter.cfg")]),
